@@ -28,7 +28,7 @@ TInit == /\ tid \in 1..Len(TraceLog) /\ l = 0
          /\ hist = H0
          /\ ev = [a |-> "Init"]
 
-AllOpKinds == {"pause", "resume", "stop"}
+AllOpKinds == {"pause", "resume", "stop", "rerun", "skip"}
 TkRec(o, x) == CHOOSE r \in Rng(o.tk) : r.name = x
 HasTk(o, x) == \E r \in Rng(o.tk) : r.name = x
 AxOf(o, x)  == {r \in Rng(o.ax) : r.task = "r/" \o x \o "#0"}
@@ -45,28 +45,35 @@ Matches(o) ==
              /\ tk'[x].processed = TkRec(o, x).processed
              /\ tk'[x].errHandled = TkRec(o, x).errHandled
              /\ tk'[x].retryNo = TkRec(o, x).retryNo
+             /\ tk'[x].wiCount = TkRec(o, x).wiCount /\ tk'[x].wiCap = TkRec(o, x).wiCap
         ELSE tk'[x].state = "none"
   /\ \A x \in Names :
         /\ Len(ax'[x]) = Cardinality(AxOf(o, x))
         /\ \A r \in AxOf(o, x) : \E k \in 1..Len(ax'[x]) :
-              r.sid = "r/" \o x \o "#0@0." \o ToString(k - 1) /\ ax'[x][k] = r.state
+              /\ r.sid = "r/" \o x \o "#0@" \o ToString(ax'[x][k].i) \o "." \o ToString(Ord(ax'[x], k) - 1)
+              /\ ax'[x][k].s = r.state /\ ax'[x][k].a = r.accepted
   /\ Cardinality(msgs') = o.pend.msgs
   /\ SumOps(ptq') = o.pend.ptq
   /\ Cardinality(jobs') = o.pend.jobsDue + o.pend.jobsLater + o.pend.running
   /\ now' = Steps[l + 1].ev.now
 
 Func(w) == CASE w = "_refresh_task_state" -> "refresh" [] w = "_check_and_fix_integrity" -> "integrity" [] w = "_continue_task" -> "continue"
-             [] w = "_complete_task" -> "complete" [] w = "_fail_task_if_incomplete" -> "timeout" [] OTHER -> w
+             [] w = "_complete_task" -> "complete" [] w = "_fail_task_if_incomplete" -> "timeout"
+             [] w = "_scheduled_on_action_complete" -> "items" [] OTHER -> w
 PtqOp(w) == IF w = "schedule_if_needed" THEN "sched_refresh" ELSE w
-SameMsg(m, e) == e.t = "" \/ (m.t = e.t /\ (m.m # "start_task" \/ m.fr = e.fr) /\ (m.m = "start_task" \/ m.k = e.k))
+\* (an action is logged by its item index and its ordinal among the executions of that item)
+SameMsg(m, e) == e.t = "" \/ (m.t = e.t /\ (m.m # "start_task" \/ m.fr = e.fr)
+                               /\ (m.m = "start_task" \/ (m.k >= 1 /\ m.k <= Len(ax[m.t]) /\ ax[m.t][m.k].i = e.i /\ Ord(ax[m.t], m.k) = e.k)))
 Act(e) ==
   CASE e.kind = "op" /\ e.what = "start" -> StartWorkflow
     [] e.kind = "op" /\ e.what = "pause" -> OpPause
     [] e.kind = "op" /\ e.what = "resume" -> OpResume
     [] e.kind = "op" /\ e.what = "stop" -> OpStop(e.arg)
+    [] e.kind = "op" /\ e.what = "rerun" /\ e.t \in Names -> IF e.arg = "skip" THEN OpSkip(e.t) ELSE OpRerun(e.t, e.arg = "reset")
     [] e.kind = "ptq" -> \E b \in ptq : /\ Head(b.ops).op = PtqOp(e.what)
                                        /\ (e.t = "" \/ (Head(b.ops).t = e.t /\ (e.what # "start_task" \/ Head(b.ops).fr = e.fr)
-                                                                       /\ (e.what # "run_action" \/ Head(b.ops).k = e.k)))
+                                                                       /\ (e.what # "run_action" \/
+                                                                            LET k == Head(b.ops).k IN k >= 1 /\ k <= Len(ax[e.t]) /\ ax[e.t][k].i = e.i /\ Ord(ax[e.t], k) = e.k)))
                                        /\ PtqStep(b)
     \* (which message: the logged task, action index and first-run flag - an engine message about a row the projection does
     \*  not know carries an empty task name and matches any)
